@@ -453,6 +453,8 @@ class Context:
         self.rule_counts[rule][0] += 1
         self.visit(func)
         f = Finding(self.prop, rule, func, construct, message, detail=detail, key_extra=key_extra, line=line)
+        if any(g.key == f.key for g in self.findings):
+            return f        # same construct already reported (e.g. once per layout mode)
         self.findings.append(f)
         self.nontrivial.add((rule, f.func, f.construct))
         self.samples.append({'rule': rule, 'site': f.func, 'construct': f.construct,
@@ -482,8 +484,12 @@ def finish(ctx, level_explanation, assumptions, not_decided):
     new, listed = [], []
     for f in ctx.findings:
         (listed if f.key in known_keys else new).append(f)
-    evdir = os.path.join(VERIF, 'evidence')
+    evdir = os.environ.get('SGZ_EVIDENCE_DIR') or os.path.join(VERIF, 'evidence')
     os.makedirs(os.path.join(evdir, 'replay'), exist_ok=True)
+    if not getattr(ctx, 'only', None):
+        for fn in os.listdir(os.path.join(evdir, 'replay')):
+            if fn.startswith(ctx.prop + '-'):
+                os.remove(os.path.join(evdir, 'replay', fn))
     lines = []
     for f in listed:
         lines.append('KNOWN-FINDING: property=%s %s' % (ctx.prop, known_keys[f.key].get('what', f.message)))
